@@ -96,8 +96,15 @@ def entryRealJava (args : List String) : String :=
     | none => "bad-case"
   | _ => "bad-case"
 
+/-- `realhttp <v4|v6> <read_ms> <other_ms> <mute|head|body|ok>`: the HTTP client is a parameter of the model (ureq); what
+the model contributes is the count: a peer that stops writing costs one blocking step bounded by the read timeout -/
+def entryRealHttp (args : List String) : String :=
+  match args with
+  | [_fam, _r, _o, mode] => "HTTP ;; - ;; B" ++ (if mode == "ok" || mode == "refused" then "0" else "1")
+  | _ => "bad-case"
+
 def realEntries : List (String × (List String → String)) :=
-  [("realudp", entryRealUdp), ("realecho", entryRealEcho), ("realrefused", entryRealRefused), ("realtcp", entryRealTcp),
+  [("realudp", entryRealUdp), ("realecho", entryRealEcho), ("realrefused", entryRealRefused), ("realtcp", entryRealTcp), ("realhttp", entryRealHttp),
    ("realgs2", entryRealGs2), ("realjava", entryRealJava)]
 
 end Gd.Run
